@@ -94,7 +94,7 @@ def register(PROPS):
         PROPS[pid] = {
             "gens": [{"id": pid, "quick": 2500, "thorough": 60000, "thorough_seeds": 12, "race": True, "gomaxprocs": [1, 2, 16]}],
             "compare": mk_compare(pid),
-            "generated_layer": pid == "C03",   # topicsIntersect
+            "generated_layer": pid in ("C03", "C04"),   # topicsIntersect; the ring buffer behind the replayers
             # C06 forbids every panic; C07 forbids a panic of a repeated or concurrent Shutdown call
             "on_crash": ("property" if pid == "C06" else
                          (lambda text: "property" if "(*Joe).Shutdown" in text else "correspondence") if pid == "C07" else
